@@ -194,7 +194,8 @@ package vm
 //@ like template.evalStmt
 //@ requires stmt != nil
 //@ ensures [C08] nosentinel: runInfo.err != ErrBreak && runInfo.err != ErrContinue && runInfo.err != ErrReturn
-//@ loop 0 invariant actInv(runInfo) && len(rvs) == len(stmt.Exprs) && runInfo.err == nil
+//@ loop 0 invariant actInv(runInfo) && len(rvs) == len(stmt.Exprs) && runInfo.err == nil && ncalls() == rangeindex + 1 && rangeindex < len(stmt.Exprs) && evalsPrefix(stmt.Exprs) && (forall k int :: 0 <= k && k < ncalls() ==> res(k) == nil)
+//@ ensures [C07] order: evalsPrefix(stmt.Exprs) && okButLast()
 //@ loop 1 invariant actInv(runInfo) && runInfo.err == nil
 //@ loop 2 invariant actInv(runInfo) && runInfo.err == nil
 
@@ -219,7 +220,8 @@ package vm
 //@ like template.evalStmt
 //@ requires stmt != nil
 //@ ensures [C08] nosentinel: runInfo.err != ErrBreak && runInfo.err != ErrContinue && runInfo.err != ErrReturn
-//@ loop 0 invariant actInv(runInfo) && len(rvs) == len(stmt.Exprs) && runInfo.err == nil
+//@ loop 0 invariant actInv(runInfo) && len(rvs) == len(stmt.Exprs) && runInfo.err == nil && ncalls() == rangeindex + 1 && rangeindex < len(stmt.Exprs) && evalsPrefix(stmt.Exprs) && (forall k int :: 0 <= k && k < ncalls() ==> res(k) == nil)
+//@ ensures [C07] order: evalsPrefix(stmt.Exprs) && okButLast() && (runInfo.err == nil ==> ncalls() == len(stmt.Exprs))
 
 //@ func (*runInfoStruct).runModuleStmt
 //@ props C04 C08 C02
